@@ -11,6 +11,14 @@ lets everything finish.  Streams:
                   liveness of the worker; oracle: key-value store, 5 s deadline, WorkerDied after a failure
   sched-cache     DictCache-level programs with sub-caches <-> Model/Cache.v (its outputs do not depend on
                   the schedule); oracle: dict per cache, 5 s deadline
+  sched-close     storage-level programs that contain close() / __exit__ calls (operations after close, a second
+                  close, close while the worker holds a task and more tasks are queued) <-> `cl_run` of
+                  Model/CacheClose.v through Model/CacheCloseCheck.v `check_cl_run`: every event of the enforced
+                  schedule (what each operation / close returned or where it blocks - put / join / the thread join of
+                  close -, which task the worker ran, i.e. which queued tasks were dropped), and at the end
+                  _loaded / _waiting_for_load, worker liveness, Worker.exit, _opened of both storages, the files on disk.
+                  oracle: no hang, first close fine, later ones ValueError, nothing returns a value after close, worker
+                  gone and directory removed after close, key-value store before it
 """
 import itertools
 
@@ -229,3 +237,353 @@ def stream_sched(ctx, boost):
     c20.judge_cache_cases(ctx, cases, results, 'sched-cache', coq_cases, coq_meta)
     c20.model_on_cache_cases(ctx, coq_cases, coq_meta, name='cases_c20_schedcache')   # Model/Cache.v: outputs do not depend on the schedule
     ctx.cov.setdefault('wall_breakdown_s', {}).update({'sched-storage': round(t1 - t0), 'sched-cache': round(time.time() - t1)})
+
+
+# ==========================================================================================
+# close() under enforced schedules  <->  Model/CacheClose.v (cl_run)
+# ==========================================================================================
+
+CLOSE_KINDS = ('close', 's_close', 'exit')
+
+
+def zpairs(l):
+    return CoqRaw('(@nil (Z * Z))') if not l else CoqRaw(coq_lit([tuple(x) for x in l]))
+
+
+CLOSE_FIXED = [
+    # close with one task at the gate and one queued, operations after close, second close
+    ([['s_save', 0, 0, 1], ['s_save', 0, 1, 2], ['close', 0], ['s_load', 0, 0], ['s_preload', 0, 0], ['close', 0]], 2, 6),
+    # preloaded value in _loaded / _waiting_for_load at close; save of a waiting key after close
+    ([['s_save', 0, 0, 1], ['s_preload', 0, 0], ['s_close', 0], ['s_load', 0, 0], ['s_save', 0, 0, 5], ['s_delete', 0, 0]], 1, 6),
+]
+
+
+def gen_close_prog(rng):
+    """a storage program with close() calls: well-formed prefix, close, anything afterwards"""
+    n1 = rng.randint(0, 5)
+    pre = gen_storage_prog(rng, n1, wellformed=rng.random() < 0.85) if n1 else []
+    ops = list(pre)
+    r = rng.random()
+    nclose = 0 if r < 0.06 else (1 if r < 0.45 else (2 if r < 0.9 else 3))
+    v = 50
+    for c in range(nclose):
+        ops.append([rng.choice(CLOSE_KINDS), 0])
+        for _ in range(rng.randint(0, 3)):
+            k = rng.randrange(NK)
+            kind = rng.choice(['s_load', 's_load', 's_preload', 's_preload', 's_save', 's_delete'])
+            v += 1
+            ops.append([kind, 0, k] + ([v] if kind == 's_save' else []))
+    return ops
+
+
+def close_oracle(case, r):
+    """written from the documentation: close() returns, a later close() raises ValueError, after close() nothing
+    returns data, the worker is gone and the temporary directory removed; before close(): key-value store."""
+    ops, out = case['ops'], r['out']
+    if len(out) != len(ops):
+        return '%d outputs for %d operations' % (len(out), len(ops))
+    first = next((i for i, op in enumerate(ops) if op[0] in CLOSE_KINDS), None)
+    if first is None:
+        return storage_oracle(case, r)
+    bad = storage_oracle(dict(case, ops=ops[:first]), dict(r, out=out[:first]))
+    if bad:
+        return bad
+    for t in range(first, len(ops)):
+        op, o = ops[t], out[t]
+        if op[0] in CLOSE_KINDS:
+            if t == first and o != ['none']:
+                return 'step %d: the first close() gave %s' % (t, o)
+            if t > first and not (o[0] == 'exc' and o[1] == 'ValueError'):
+                return 'step %d: close() of a closed storage gave %s instead of ValueError' % (t, o)
+        elif o[0] == 'val':
+            return 'step %d %r returned %s after close()' % (t, op, o)
+        elif o[0] == 'exc' and o[1] not in ('WorkerDied', 'ValueError'):
+            return 'step %d %r raised %s after close()' % (t, op, o[1:])
+    if r.get('worker_alive_end'):
+        return 'worker thread alive after close()'
+    if r.get('dir_exists_end') or r.get('disk_end'):
+        return 'close() left the directory / files behind: %s' % r.get('disk_end')
+    if r.get('opened_end') or r.get('disk_opened_end'):
+        return 'storage still open after close(): %s' % {k: r.get(k) for k in ('opened_end', 'disk_opened_end')}
+    if r.get('loaded_end'):
+        return '_loaded not empty after close(): %s' % r.get('loaded_end')
+    return None
+
+
+def coq_close_case(case, r):
+    ops = []
+    for op in case['ops']:
+        if op[0] in CLOSE_KINDS:
+            ops.append(CoqRaw('CClose'))
+        elif op[0] == 's_save':
+            ops.append(CoqRaw('(COp (SSave %s %s))' % (coq_lit(op[2]), coq_lit(op[3]))))
+        else:
+            ops.append(CoqRaw('(COp (%s %s))' % ({'s_load': 'SLoad', 's_preload': 'SPreload', 's_delete': 'SDelete'}[op[0]], coq_lit(op[2]))))
+
+    def outc(o):
+        if o[0] == 'val':
+            return [1, o[1]] if isinstance(o[1], int) else [99]
+        if o[0] == 'none':
+            return [0]
+        return [2] if o[1] == 'WorkerDied' else ([3] if o[1] == 'AssertionError' else [98])
+
+    def closec(o):
+        return 0 if o == ['none'] else (1 if o[0] == 'exc' and o[1] == 'ValueError' else 98)
+    toks, events = [], []
+    nout = [0]      # outputs seen so far = index of the operation the caller is in
+
+    def finished(o):
+        op = case['ops'][nout[0]] if nout[0] < len(case['ops']) else ['?']
+        nout[0] += 1
+        return op[0] in CLOSE_KINDS
+    for e in r['trace']:
+        toks.append(e[0] == 'C')
+        if e[0] == 'C':
+            if e[1] == 'done':
+                ev = [15, closec(e[2])] if finished(e[2]) else [10] + outc(e[2])
+            elif e[1] == 'blocked':
+                ev = {'put': [11], 'join': [12], 'close': [16]}.get(e[2], [96])
+            elif e[1] == 'still-blocked':
+                ev = [13]
+            elif e[1] == 'finished':
+                ev = [14]
+            else:
+                ev = [97]
+        else:
+            if e[1] == 'idle':
+                ev = [20]
+            elif e[1] == 'ran':
+                ev = [21, {'load': 0, 'save': 1, 'delete': 2}[e[2]], e[3]]
+                if len(e) > 4:
+                    if e[4] == 'unblocked':
+                        ev += [35, closec(e[5])] if finished(e[5]) else [30] + outc(e[5])
+                    else:
+                        ev += {'put': [31], 'join': [32], 'close': [36]}.get(e[5], [96])
+            else:
+                ev = [97]
+        events.append(ev)
+    ft = case.get('fail_task')
+    op_outs = [outc(o) for op, o in zip(case['ops'], r['out']) if op[0] not in CLOSE_KINDS]
+    close_outs = [closec(o) for op, o in zip(case['ops'], r['out']) if op[0] in CLOSE_KINDS]
+    disk = [(a, b) if isinstance(a, int) and isinstance(b, int) else (-1, -1) for a, b in r.get('disk_end', [])]
+    return coq_lit((Nat(case['max_queue_size']), CoqRaw('(@None nat)') if ft is None else opt(Nat(ft)), ops, toks, events,
+                    c20.zlist(r.get('loaded_end', [])), c20.zlist(r.get('waiting_end', [])), bool(r.get('worker_alive_end')),
+                    zpairs(disk), bool(r.get('opened_end')), bool(r.get('disk_opened_end')), bool(r.get('exit_set_end')),
+                    CoqRaw(coq_lit(op_outs) if op_outs else '(@nil (list Z))'),
+                    c20.zlist(close_outs)))
+
+
+def check_close_cases(ctx, cases):
+    results = c20.run_cache_cases(ctx, cases, 6, 'sched-close', deadline=30)
+    coq_cases, meta = [], []
+    for case, r in zip(cases, results):
+        if r is None:
+            continue
+        replay = {'stream': 'sched-close', 'case': case, 'impl': r.get('out'), 'trace': r.get('trace')}
+        if 'runner_error' in r:
+            ctx.fail('correspondence', 'sched-close runner: ' + r['runner_error'][-500:], replay)
+            continue
+        ops = case['ops']
+        nclose = sum(1 for o in ops if o[0] in CLOSE_KINDS)
+        blocked_close = any('close' in e[2:] for e in r.get('trace', []))
+        ctx.count('sched-close', [case['max_queue_size'], case.get('fail_task'), ops, [e[:2] for e in r.get('trace', [])]],
+                  nontrivial=nclose > 0 and len(ops) > nclose, sample={'case': case, 'trace': r.get('trace')})
+        ctx.cov['sched_close_blocked_in_close'] = ctx.cov.get('sched_close_blocked_in_close', 0) + int(blocked_close)
+        if r.get('hang') or not r.get('done'):
+            ctx.fail('oracle', 'sched-close: deadlock detector: %s' % r.get('hang', 'case did not finish'), replay)
+            continue
+        bad = close_oracle(case, r)
+        if bad:
+            ctx.fail('oracle', 'sched-close (queue size %d): %s' % (case['max_queue_size'], bad), replay)
+        want_final = 'ValueError' if nclose else 'ok'
+        if r.get('final_close') != want_final or r.get('worker_alive_after_close') or r.get('leftover'):
+            ctx.fail('oracle', 'sched-close: final close() not as documented (expected %s): %s' % (
+                want_final, {k: r.get(k) for k in ('final_close', 'worker_alive_after_close', 'leftover')}), replay)
+        coq_cases.append(coq_close_case(case, r))
+        meta.append(replay)
+    bad, err = common.coq_failing_indices('cases_c20_close', ['Base.Prelude', 'Model.Cache', 'Model.CacheThread', 'Model.CacheClose',
+                                                              'Model.CacheCloseCheck'], 'check_cl_run', coq_cases, shard=400)
+    if err:
+        ctx.fail('correspondence', 'Model/CacheCloseCheck.v evaluation failed: ' + err[-600:], None)
+    for b in bad[:5]:
+        ctx.fail('correspondence', 'Model/CacheClose.v (cl_run) and ThreadedStorage.close / Worker.__exit__ disagree under an enforced schedule', meta[b])
+    ctx.cov['sched_close_traces_validated_against_model'] = ctx.cov.get('sched_close_traces_validated_against_model', 0) + len(coq_cases)
+    return coq_cases
+
+
+def stream_sched_close(ctx, boost):
+    import time
+    t0 = time.time()
+    rng = ctx.rng
+    cases = []
+    for prog, q, L in CLOSE_FIXED:
+        for toks in itertools.product('CW', repeat=L):
+            if toks[0] == 'W' and toks[1] == 'W':
+                continue                        # leading W's are no-ops
+            cases.append({'storage': 'PickleStorage', 'max_queue_size': q, 'schedule': list(toks), 'ops': prog})
+    nrand = (300 - len(cases)) if boost == 1 and ctx.tier == 'quick' else ctx.pick(200, 1500) * boost
+    for i in range(nrand):
+        prog = gen_close_prog(rng)
+        c = {'storage': 'PickleStorage', 'max_queue_size': rng.choice([1, 1, 2, 2, 3, 0]),
+             'schedule': gen_schedule(rng, len(prog)), 'ops': prog}
+        if rng.random() < 0.2:
+            c['fail_task'] = rng.randint(0, 2)
+        cases.append(c)
+    check_close_cases(ctx, cases)
+    ctx.cov.setdefault('wall_breakdown_s', {}).update({'sched-close': round(time.time() - t0)})
+
+
+# ==========================================================================================
+# file-backed storage with sub-containers  <->  Model/CacheFile.v (fs_run)
+# ==========================================================================================
+
+def gen_fs_prog(rng, n):
+    """operations on a tree of containers; closed containers stay addressable.  Not generated: close() of an open
+    container with a separately closed descendant (see the header of coq/Model/CacheFile.v)."""
+    opened = {(): True}
+    order = [()]
+    ops = []
+    v = 10
+    for _ in range(n):
+        p = rng.choice(order)
+        r = rng.random()
+        k = rng.randrange(3)
+        if r < 0.25:
+            v += 1
+            ops.append(['save', list(p), k, v])
+        elif r < 0.45:
+            ops.append(['load', list(p), k])
+        elif r < 0.55:
+            ops.append(['delete', list(p), k])
+        elif r < 0.62:
+            ops.append(['preload', list(p), k])
+        elif r < 0.85 and len(p) < 3:
+            nm = rng.randrange(2)
+            ops.append(['sub', list(p), nm])
+            q = p + (nm,)
+            if opened[p] and q not in opened:
+                opened[q] = True
+                order.append(q)
+        else:
+            if opened[p] and any(not o for q, o in opened.items() if len(q) > len(p) and q[:len(p)] == p):
+                continue
+            ops.append(['close', list(p)])
+            if opened[p]:
+                for q in opened:
+                    if q[:len(p)] == p:
+                        opened[q] = False
+    return ops
+
+
+def fs_oracle(case, r):
+    """dict per container, written from the documentation: a closed container refuses everything with ValueError,
+    closing a container closes everything below it, the top container removes the directory"""
+    d, opened = {(): {}}, {(): True}
+    for t, (op, o) in enumerate(zip(case['ops'], r['out'])):
+        p = tuple(op[1])
+        if not opened[p]:
+            want = ['exc', 'ValueError']
+        elif op[0] == 'save':
+            d[p][op[2]] = op[3]
+            want = ['none']
+        elif op[0] == 'load':
+            want = ['val', d[p][op[2]]] if op[2] in d[p] else ['exc', 'FileNotFoundError']
+        elif op[0] == 'delete':
+            d[p].pop(op[2], None)
+            want = ['none']
+        elif op[0] == 'preload':
+            want = ['none']
+        elif op[0] == 'sub':
+            q = p + (op[2],)
+            if q in d:
+                want = ['exc', 'ValueError']
+            else:
+                d[q], opened[q] = {}, True
+                want = ['none']
+        else:
+            for q in opened:
+                if q[:len(p)] == p:
+                    opened[q] = False
+            want = ['none']
+        if o[:len(want)] != want:
+            return 'step %d %r gave %s, expected %s' % (t, op, o[:2], want)
+    for path, op_, files in r.get('final', []):
+        if op_ != opened[tuple(path)]:
+            return 'container %s: _opened = %s at the end, expected %s' % (path, op_, opened[tuple(path)])
+        if not opened[()] and files:
+            return 'files left after the top container was closed: %s' % files
+        if opened[()] and dict((a, b) for a, b in files) != d[tuple(path)]:
+            return 'container %s holds %s on disk, a dict gives %s' % (path, files, d[tuple(path)])
+    # the runner's own final close() of the top container: fine when nothing was closed before; when the top container
+    # was closed by the program, ValueError and nothing left.  (When only a sub-container was closed separately the
+    # ValueError of that sub-container surfaces from the parent's close() and the directory stays - Storage-level use
+    # that the cache layer cannot produce, not modelled and not judged here.)
+    if all(opened.values()) and (r.get('final_close') != 'ok' or r.get('leftover')):
+        return 'final close() gave %s and left %s behind' % (r.get('final_close'), r.get('leftover'))
+    if not opened[()] and (r.get('final_close') != 'ValueError' or r.get('leftover')):
+        return 'close() of the closed top container gave %s, left behind: %s' % (r.get('final_close'), r.get('leftover'))
+    return None
+
+
+def coq_fs_case(case, r):
+    ops = []
+    for op in case['ops']:
+        p = c20.zlist(op[1])
+        name = {'load': 'FLoad', 'save': 'FSave', 'delete': 'FDelete', 'preload': 'FPreload', 'sub': 'FSub', 'close': 'FClose'}[op[0]]
+        ops.append(CoqRaw('(%s %s%s)' % (name, p, ''.join(' ' + coq_lit(x) for x in op[2:]))))
+    outs = []
+    for o in r['out']:
+        if o[0] == 'none':
+            outs.append([0])
+        elif o[0] == 'val':
+            outs.append([1, o[1]] if isinstance(o[1], int) else [99])
+        else:
+            outs.append([2] if o[1] == 'ValueError' else ([3] if o[1] == 'FileNotFoundError' else [98]))
+    final = [CoqRaw('(%s, %s, %s)' % (c20.zlist(p), coq_lit(bool(o)), zpairs(f))) for p, o, f in r['final']]
+    return coq_lit((ops, CoqRaw(coq_lit(outs) if outs else '(@nil (list Z))'), final))
+
+
+def check_fs_cases(ctx, cases):
+    nproc = min(4, max(1, len(cases) // 50))
+    chunks = [cases[i::nproc] for i in range(nproc)]
+    res = common.run_impl_parallel('c20_impl.py', [{'kind': 'fstore', 'cases': ch} for ch in chunks],
+                                   extra_env={'C20_TMP': common.scratch()}, timeout=600)
+    results = [None] * len(cases)
+    for i, (r, err) in enumerate(res):
+        if err:
+            ctx.fail('correspondence', 'file-storage runner failed: %s' % err[-500:], None)
+            continue
+        for j, x in enumerate(r):
+            results[i + j * nproc] = x
+    coq_cases, meta = [], []
+    for case, r in zip(cases, results):
+        if r is None:
+            continue
+        replay = {'stream': 'file-storage', 'case': case, 'impl': r.get('out'), 'final': r.get('final')}
+        if 'runner_error' in r or not r.get('done'):
+            ctx.fail('correspondence', 'file-storage runner: ' + str(r.get('runner_error'))[-500:], replay)
+            continue
+        kinds = set(o[0] for o in case['ops'])
+        ctx.count('file-storage', case, nontrivial={'sub', 'close', 'save'} <= kinds, sample={'case': case, 'out': r.get('out')})
+        bad = fs_oracle(case, r)
+        if bad:
+            ctx.fail('oracle', 'file-storage (%s): %s' % (case['storage'], bad), replay)
+        coq_cases.append(coq_fs_case(case, r))
+        meta.append(replay)
+    bad, err = common.coq_failing_indices('cases_c20_fs', ['Base.Prelude', 'Model.Cache', 'Model.CacheFile', 'Model.CacheFileCheck'],
+                                          'check_fs', coq_cases, shard=400)
+    if err:
+        ctx.fail('correspondence', 'Model/CacheFileCheck.v evaluation failed: ' + err[-600:], None)
+    for b in bad[:5]:
+        ctx.fail('correspondence', 'Model/CacheFile.v (fs_run) and PickleStorage (sub-containers, close) disagree', meta[b])
+    ctx.cov['file_storage_traces_validated_against_model'] = ctx.cov.get('file_storage_traces_validated_against_model', 0) + len(coq_cases)
+
+
+def stream_file_storage(ctx, boost):
+    import time
+    t0 = time.time()
+    rng = ctx.rng
+    cases = [{'storage': 'PickleStorage', 'ops': gen_fs_prog(rng, rng.randint(3, ctx.pick(14, 30)))}
+             for _ in range(ctx.pick(250, 1500) * boost)]
+    check_fs_cases(ctx, cases)
+    ctx.cov.setdefault('wall_breakdown_s', {}).update({'file-storage': round(time.time() - t0)})
